@@ -765,6 +765,9 @@ class ExchangeRate:
 
     def inverted(self) -> ExchangeRate:
         """Return inverted exchange rate."""
+        if self._unit_currency is self._term_currency:
+            # the rate between a currency and itself (see `_identity`)
+            return self
         return ExchangeRate(self._term_currency, ONE, self._unit_currency,
                             self.inverse_rate)
 
